@@ -490,6 +490,9 @@ func modeCancel1(a args) {
 		timedOut("Cancel after a refused run")
 	}
 	time.Sleep(20 * time.Millisecond)
+	if sp.Cmd == "ticker" {
+		time.Sleep(500 * time.Millisecond) // a command that is still alive reports at least four more times
+	}
 
 	// ---- offline checks over the trace
 	toks := strings.Fields(h.ReadFile(trace))
@@ -571,7 +574,9 @@ func modeCancel1(a args) {
 			reportedOK = runRet[t.Name] && runErr[t.Name] == nil
 			rmu.Unlock()
 		}
-		if !complete && reportedOK && !t.Skipped {
+		// (a task skipped by a condition that answered "no" is no success report; a condition that was itself cut
+		// short by the cancellation answered nothing)
+		if !complete && reportedOK && (!t.Skipped || sp.Point == "during-condition") {
 			what := "interrupted"
 			if _, started := pos["S:"+t.Name+":0"]; !started {
 				what = "never started"
